@@ -86,8 +86,8 @@ pub fn interner(r: &mut Rng, n: u64, thorough: bool, out: &mut Out) {
         }
     }
     for _ in 0..n {
-        let len = r.below(if thorough { 200 } else { 60 }) as usize;
-        let alphabet = *r.pick(&[2u64, 4, 8, 30]);
+        let len = r.below(if gen::small() { 7 } else if thorough { 200 } else { 60 }) as usize;
+        let alphabet = if gen::small() { 3 } else { *r.pick(&[2u64, 4, 8, 30]) };
         let mut ops = gen_iops(r, len, alphabet);
         ops.push(IOp::Elements);
         out.line(&format!("interner {} {}", case, run_interner(&ops)));
@@ -197,7 +197,7 @@ fn perturb(r: &mut Rng, mut t: Type<PortableForm>) -> Type<PortableForm> {
 
 pub fn builder(r: &mut Rng, n: u64, thorough: bool, out: &mut Out) {
     for case in 0..n {
-        let len = r.below(if thorough { 60 } else { 25 }) as usize;
+        let len = r.below(if gen::small() { 5 } else if thorough { 60 } else { 25 }) as usize;
         // a small pool of values forces duplicates arriving after unrelated insertions
         let closed = r.chance(1, 2);
         let mut pool: Vec<Type<PortableForm>> = vec![];
